@@ -59,7 +59,7 @@ theorem C52_sys_range (s : Stream) (l u : Int) (lb ub : Bool) (fuel p : Nat) (re
     · rename_i r hr
       injection h with h; injection h with h1 h2; subst h1; subst h2
       have := uniformUBig_lt s (u - l).toNat fuel p r (by omega) hr
-      refine ⟨(r.1 : Int) + l, rfl, by omega, by omega, fun hf => by cases hf, this.2⟩
+      refine ⟨(r.1 : Int) + l, rfl, by omega, by omega, (fun hf => by cases hf), this.2⟩
 
 /-- **Failure iff the range is empty**, and then no raw word is consumed. -/
 theorem C52_sys_fail_iff (s : Stream) (l u : Int) (lb ub : Bool) (fuel p : Nat) (res : Res) (p' : Nat)
@@ -190,14 +190,20 @@ theorem C52_random_unit_interval (s : Stream) (fuel p : Nat) (out : Out) (p' : N
     have hk : v.toNat < 2 ^ 50 := by omega
     exact ⟨v.toNat, hk, h1.symm, key _ hk⟩
 
-/-- `maybe/0` succeeds iff the sign bit of the next raw word is clear; it consumes exactly one word. -/
+/-- `maybe/0` succeeds iff the sign bit of the next raw word (`w32 s p`, the word at the read position) is clear; it consumes exactly one word. -/
 theorem C52_maybe (s : Stream) (p : Nat) :
-    ((maybe s p).1 = .succeeds ↔ (s p).toNat < 2 ^ 31) ∧ ((maybe s p).1 = .fails ↔ 2 ^ 31 ≤ (s p).toNat) ∧
+    ((maybe s p).1 = .succeeds ↔ w32 s p < 2 ^ 31) ∧ ((maybe s p).1 = .fails ↔ 2 ^ 31 ≤ w32 s p) ∧
     (maybe s p).2 = p + 1 := by
-  simp only [maybe, sysMaybe, w32, decide_eq_true_eq]
-  split
-  · rename_i h; exact ⟨⟨fun _ => h, fun _ => rfl⟩, ⟨fun hh => by cases hh, fun hh => by omega⟩, rfl⟩
-  · rename_i h; exact ⟨⟨fun hh => by cases hh, fun hh => absurd hh h⟩, ⟨fun _ => by omega, fun _ => rfl⟩, rfl⟩
+  simp only [maybe, sysMaybe]
+  by_cases h : w32 s p < 2 ^ 31
+  · have hd : decide (w32 s p < 2 ^ 31) = true := decide_eq_true h
+    simp only [hd, if_true]
+    refine ⟨by simp; omega, ?_, by simp⟩
+    simp; omega
+  · have hd : decide (w32 s p < 2 ^ 31) = false := decide_eq_false h
+    simp only [hd, Bool.false_eq_true, if_false]
+    refine ⟨by simp; omega, ?_, by simp⟩
+    simp; omega
 
 /-! ## uniformity of one attempt -/
 
@@ -239,7 +245,7 @@ theorem C52_uniform_preimages (w : Width) (range k : Nat) (h0 : range ≠ 0) (hl
         rw [Nat.add_mul] at this; omega
       have h2 : v * range < B * range := by rw [Nat.mul_comm B range]; omega
       exact Nat.lt_of_mul_lt_mul_right h2
-  rw [hset, Nat.card_Ico]; omega
+  rw [hset, Nat.card_Ico, Nat.add_sub_cancel_left]
 
 /-- the decision of one attempt of the loop depends only on the words of that attempt: the loop is
     "draw, test, return or repeat from the next position" (the unfolding equation). -/
@@ -340,6 +346,6 @@ example : setRandom (.seedInt (-1)) none = (.succeeds, some (1844674407370955161
 /-- `ArgWf` is satisfiable in both representations, also for a small value in an arena integer. -/
 example : ArgWf 5 false ∧ ArgWf 5 true ∧ ArgWf (2 ^ 70) true := by
   unfold ArgWf
-  exact ⟨fun _ => by decide, fun h => by cases h, fun h => by cases h⟩
+  exact ⟨fun _ => by decide, (fun h => by cases h), (fun h => by cases h)⟩
 
 end Scryer.Random
